@@ -937,9 +937,12 @@ lyd_move_nodes_by_schema(struct lyd_node **first_dst, struct lyd_node *first_src
                  */
                 LOGWRN(LYD_CTX(first_src), "Data in \"%s\" are not sorted.", leader->schema->name);
                 LY_CHECK_RET(lyd_move_nodes_ordby_schema(first_dst, next, &next));
+                first_src = next;
             }
         } else {
             LY_CHECK_RET(lyd_move_nodes_ordby_schema(first_dst, iter, &next));
+            /* the moved nodes were the first source siblings */
+            first_src = next;
         }
     }
 
